@@ -7,19 +7,29 @@
 EXTENDS Algo, Envelope
 
 CONSTANTS MaxN,       \* configurations with k + r <= MaxN get every sufficient subset
-          MaxCfg      \* configurations with k + r <= MaxCfg are explored at all
+          MaxCfg,     \* configurations with k + r <= MaxCfg are explored at all
+          Corners     \* TRUE: instead, the corner and chunk-edge configurations of the scaled envelope with maximum-loss patterns
 
 BasisFor == CASE Bits = 2 -> <<1, 2>>
               [] Bits = 4 -> <<1, 6, 2, 10>>
               [] Bits = 8 -> <<1, 214, 152, 146, 86, 200, 88, 230>>
 
-Cfgs == {c \in {"high", "low"} \X (1..(Order-1)) \X (1..(Order-1)) :
-           /\ Supports(c[1], c[2], c[3]) /\ c[2] + c[3] <= MaxCfg}
+SmallCfgs == {c \in {"high", "low"} \X (1..(Order-1)) \X (1..(Order-1)) :
+                /\ Supports(c[1], c[2], c[3]) /\ c[2] + c[3] <= MaxCfg}
+\* staircase corners (both coordinates), multi-chunk shapes with full and partial last chunks
+CornerPairs == {<<Order - 2^n, 2^n>> : n \in 0..(Bits-1)}
+               \cup {<<Order - 2^n - 1, 2^n>> : n \in 0..(Bits-2)}
+               \cup {<<Order - 2^(n+1), 2^n + 1>> : n \in 0..(Bits-2)}
+               \cup {<<3 * 2^n + 1, 2^n>> : n \in 1..(Bits-3)} \cup {<<5 * 2^n - 1, 2^n - 1>> : n \in 2..(Bits-3)}
+CornerCfgs == {c \in {"high", "low"} \X (1..(Order-1)) \X (1..(Order-1)) :
+                 /\ Supports(c[1], c[2], c[3])
+                 /\ (IF c[1] = "high" THEN <<c[2], c[3]>> \in CornerPairs ELSE <<c[3], c[2]>> \in CornerPairs)}
+Cfgs == IF Corners THEN CornerCfgs ELSE SmallCfgs
 
 \* data sets: a ramp of distinct non-zero symbols, and (small k) every unit vector
 Ramp(k) == [i \in 1..k |-> ((7 * i + 3) % (Order - 1)) + 1]
 Unit(k, u, v) == [i \in 1..k |-> IF i = u THEN v ELSE 0]
-DataSets(k) == {Ramp(k)} \cup {Unit(k, u, Order - 1) : u \in 1..k}
+DataSets(k) == {Ramp(k)} \cup {Unit(k, u, Order - 1) : u \in (IF k <= 16 THEN 1..k ELSE {1, k \div 2, k})}
 Poisons == {0, 1, Order - 1}
 
 VARIABLES cfg, ph, gO, gR
@@ -30,12 +40,18 @@ K == cfg[2]
 R == cfg[3]
 \* subsets explored: everything sufficient when small, else exactly k and k+1 shards
 SizesFor(k, r) == IF k + r <= MaxN THEN k..(k + r) ELSE {k, k + 1} \cap (k..(k + r))
+\* maximum-loss patterns for the corner configurations: as many originals lost as there are recovery shards -
+\* the first ones, the last ones, or every other one - and all recovery shards given
+Lost == IF R < K THEN R ELSE K
+CornerGiven == {(Lost..(K-1)), (0..(K-1-Lost)), {i \in 0..(K-1) : i % 2 = 1 \/ i >= 2 * Lost}}
 Next ==
   \/ /\ ph = "enc" /\ ph' = "origs" /\ UNCHANGED <<cfg, gO, gR>>
-  \/ /\ ph = "origs" /\ ph' = "recs" /\ gO' \in SUBSET (0..(K-1)) /\ UNCHANGED <<cfg, gR>>
+  \/ /\ ph = "origs" /\ ph' = "recs" /\ UNCHANGED <<cfg, gR>>
+     /\ IF Corners THEN gO' \in CornerGiven ELSE gO' \in SUBSET (0..(K-1))
   \/ /\ ph = "recs" /\ ph' = "dec"
-     /\ \E n \in SizesFor(K, R) : n - Cardinality(gO) >= 0 /\ n - Cardinality(gO) <= R
-                                  /\ gR' \in kSubset(n - Cardinality(gO), 0..(R-1))
+     /\ IF Corners THEN gR' = 0..(R-1)
+        ELSE \E n \in SizesFor(K, R) : n - Cardinality(gO) >= 0 /\ n - Cardinality(gO) <= R
+                                       /\ gR' \in kSubset(n - Cardinality(gO), 0..(R-1))
      /\ UNCHANGED <<cfg, gO>>
 Spec == Init /\ [][Next]_vars
 
